@@ -379,7 +379,10 @@ def range_difference(data, ground_truth, mask=None, normalized=False,
     ground_truth = np.asarray(ground_truth)
 
     if mask is not None:
-        mask = np.asarray(mask, dtype=bool)
+        mask = np.asarray(mask)
+        if mask.shape == data.shape:
+            # Binary mask
+            mask = mask.astype(bool)
         data = data[mask]
         ground_truth = ground_truth[mask]
 
